@@ -12,12 +12,12 @@ from harness import common  # noqa
 out = []
 for pid in sorted(manifest.CLAIMED):
     tech, text, note, ref = manifest.CLAIMED[pid]
-    f = os.path.join(common.LEAN_DIR, "Luqum", "Props", pid + ".lean")
-    names = [n.split(".")[-1] for n in common.theorem_names(f)] if os.path.exists(f) else []
-    extra = os.path.join(common.LEAN_DIR, "Luqum", "Props", pid + "Num.lean")
-    if os.path.exists(extra):
-        names += [n.split(".")[-1] for n in common.theorem_names(extra)]
-    out.append("### %s\n*Decided by.* %s\n\n*What is established.* %s\n\n*Theorems in `lean/Luqum/Props/%s.lean` (%d).* %s\n" % (
+    import glob
+    files = sorted(glob.glob(os.path.join(common.LEAN_DIR, "Luqum", "Props", pid + "*.lean")))
+    names = []
+    for f in files:
+        names += [n.split(".")[-1] for n in common.theorem_names(f)]
+    out.append("### %s\n*Decided by.* %s\n\n*What is established.* %s\n\n*Theorems in `lean/Luqum/Props/%s*.lean` (%d).* %s\n" % (
         pid, tech, text, pid, len(names), ", ".join("`%s`" % n for n in names)))
 p = os.path.join(VERIF, "DESIGN.md")
 s = open(p).read()
